@@ -1006,6 +1006,354 @@ class Tr(object):
                                                    rty if body.pure else "res (%s)" % rty, body.term), body.pure
 
 
+# ------------------------------------------------------------------------------------------------
+# _tzparser.parse: the offset reader (sign + hh[mm] / hh:mm) of the abbreviation loop, translated in the
+# option monad (every IndexError / ValueError inside parse() makes it return None)
+
+class OptTr(object):
+    """straight-line token code -> Gallina in the option monad.  State: i (nat), used (list nat),
+    signal (Z), value (Z, what setattr(res, offattr, ...) stores), len_li (nat)."""
+
+    ATTRS = ["month", "week", "weekday", "yday", "jyday", "day", "time"]
+
+    def __init__(self, attr_mode=False):
+        self.n = 0
+        self.attr_mode = attr_mode      # x.<attr> assignments build a tzattr record (whole rule body)
+
+    def fresh(self, p):
+        self.n += 1
+        return "%s%d_" % (p, self.n)
+
+    def wrap(self, binds, term):
+        for (v, e) in reversed(binds):
+            term = "(obind %s (fun %s => %s))" % (e, v, term)
+        return term
+
+    def expr(self, e, st, want=None):
+        """-> (binds, term, kind)  kind in tok / Z / nat / B"""
+        if isinstance(e, ast.Name):
+            if e.id == "i":
+                return [], st["i"], "nat"
+            if e.id == "len_l":
+                return [], "(length l)", "nat"
+            if e.id in ("len_li", "signal", "value") and st.get(e.id) is not None:
+                return [], st[e.id], "nat" if e.id == "len_li" else "Z"
+            raise TranslateError("name %s" % e.id)
+        if isinstance(e, ast.Constant) and isinstance(e.value, int):
+            return [], ("%d%%nat" % e.value if want == "nat" else lit(e.value)), want or "Z"
+        if isinstance(e, ast.Constant) and isinstance(e.value, str) and len(e.value) == 1:
+            return [], "[%d]" % ord(e.value), "tok"
+        if isinstance(e, ast.UnaryOp) and isinstance(e.op, ast.USub) and isinstance(e.operand, ast.Constant):
+            return [], "(-%d)" % e.operand.value, "Z"
+        if isinstance(e, ast.Subscript) and isinstance(e.value, ast.Name) and e.value.id == "l":
+            b, idx, k = self.expr(e.slice, st, "nat")
+            if k != "nat":
+                raise TranslateError("token index")
+            t = self.fresh("t")
+            return b + [(t, "(tk l %s)" % idx)], t, "tok"
+        if isinstance(e, ast.Subscript) and isinstance(e.slice, ast.Slice):
+            b, t, k = self.expr(e.value, st)
+            lo, hi = e.slice.lower, e.slice.upper
+            if k != "tok" or e.slice.step is not None:
+                raise TranslateError("slice")
+            if lo is None and isinstance(hi, ast.Constant):
+                return b, "(firstn %d %s)" % (hi.value, t), "tok"
+            if hi is None and isinstance(lo, ast.Constant):
+                return b, "(skipn %d %s)" % (lo.value, t), "tok"
+            raise TranslateError("slice bounds")
+        if isinstance(e, ast.Subscript) and isinstance(e.value, ast.Tuple) and len(e.value.elts) == 2:
+            b0, a0, k0 = self.expr(e.value.elts[0], st)
+            b1, a1, k1 = self.expr(e.value.elts[1], st)
+            bc, c, kc = self.expr(e.slice, st)
+            if b0 or b1 or kc != "B" or k0 != "Z" or k1 != "Z":
+                raise TranslateError("tuple index")
+            return bc, "(if %s then %s else %s)" % (c, a1, a0), "Z"
+        if isinstance(e, ast.Call) and isinstance(e.func, ast.Name) and len(e.args) == 1 and not e.keywords:
+            b, t, k = self.expr(e.args[0], st)
+            if e.func.id == "len" and k == "tok":
+                return b, "(length %s)" % t, "nat"
+            if e.func.id == "int" and k == "tok":
+                v = self.fresh("v")
+                return b + [(v, "(int_tok %s)" % t)], v, "Z"
+            raise TranslateError("call %s" % e.func.id)
+        if isinstance(e, ast.Attribute) and isinstance(e.value, ast.Name) and e.value.id == "x" and self.attr_mode:
+            raw = st.get("raw_" + e.attr)
+            if raw is None:
+                raise TranslateError("x.%s read where its value is not statically an int" % e.attr)
+            return [], raw, "Z"
+        if isinstance(e, ast.BinOp) and isinstance(e.op, (ast.Sub, ast.Mod)):
+            bl, a, ka = self.expr(e.left, st, "Z")
+            br, b_, kb = self.expr(e.right, st, "Z")
+            if ka != "Z" or kb != "Z":
+                raise TranslateError("int arithmetic expected in %s" % ast.unparse(e))
+            if isinstance(e.op, ast.Mod):
+                if not (isinstance(e.right, ast.Constant) and isinstance(e.right.value, int) and e.right.value > 0):
+                    raise TranslateError("% by a positive literal only")
+                return bl + br, "(%s mod %s)" % (a, b_), "Z"
+            return bl + br, "(%s - %s)" % (a, b_), "Z"
+        if isinstance(e, ast.BoolOp) and isinstance(e.op, ast.Or) and len(e.values) == 2:
+            bl, a, ka = self.expr(e.values[0], st)
+            br, b_, kb = self.expr(e.values[1], st)
+            if ka != "B" or kb != "B":
+                raise TranslateError("or of non-booleans")
+            if not br:
+                return bl, "(%s || %s)" % (a, b_), "B"
+            c = self.fresh("c")        # the right operand is only evaluated when the left one fails
+            return bl + [(c, "(if %s then Some true else %s)" % (a, self.wrap(br, "(Some %s)" % b_)))], c, "B"
+        if isinstance(e, ast.BinOp) and isinstance(e.op, (ast.Add, ast.Mult)):
+            bl, a, ka = self.expr(e.left, st, want)
+            br, b_, kb = self.expr(e.right, st, ka)
+            if ka != kb or ka not in ("Z", "nat"):
+                raise TranslateError("arithmetic on %s, %s" % (ka, kb))
+            op = "+" if isinstance(e.op, ast.Add) else "*"
+            return bl + br, ("(%s %s %s)%%nat" if ka == "nat" else "(%s %s %s)") % (a, op, b_), ka
+        if isinstance(e, ast.Compare) and len(e.ops) == 1:
+            bl, a, ka = self.expr(e.left, st)
+            op = e.ops[0]
+            if ka == "tok" and isinstance(op, ast.In) and isinstance(e.comparators[0], ast.Tuple):
+                alts = []
+                for x in e.comparators[0].elts:
+                    if not (isinstance(x, ast.Constant) and isinstance(x.value, str) and len(x.value) == 1):
+                        raise TranslateError("membership in a tuple of single characters expected")
+                    alts.append("list_eqb %s [%d]" % (a, ord(x.value)))
+                return bl, "(" + " || ".join(alts) + ")", "B"
+            br, b_, kb = self.expr(e.comparators[0], st, ka)
+            if ka == "tok" and kb == "tok" and isinstance(op, ast.Eq):
+                return bl + br, "(list_eqb %s %s)" % (a, b_), "B"
+            if ka == "nat" and kb == "nat":
+                sym = {ast.Eq: "=?", ast.LtE: "<=?", ast.Lt: "<?"}.get(type(op))
+                if sym:
+                    return bl + br, "(%s %s %s)%%nat" % (a, sym, b_), "B"
+            if ka == "Z" and kb == "Z" and isinstance(op, ast.Eq):
+                return bl + br, "(%s =? %s)" % (a, b_), "B"
+            raise TranslateError("comparison %s" % ast.unparse(e))
+        if isinstance(e, ast.BoolOp) and isinstance(e.op, ast.And) and len(e.values) == 2:
+            bl, a, ka = self.expr(e.values[0], st)
+            br, b_, kb = self.expr(e.values[1], st)
+            if ka != "B" or kb != "B":
+                raise TranslateError("and of non-booleans")
+            if not br:
+                return bl, "(%s && %s)" % (a, b_), "B"
+            c = self.fresh("c")        # the right operand is only evaluated when the left one holds
+            return bl + [(c, "(if %s then %s else Some false)" % (a, self.wrap(br, "(Some %s)" % b_)))], c, "B"
+        raise TranslateError("token expression %s" % ast.unparse(e))
+
+    STATE = ["signal", "value", "i", "used", "len_li"]
+
+    def block(self, stmts, st, k):
+        if not stmts:
+            return k(st)
+        s, rest = stmts[0], stmts[1:]
+        if isinstance(s, ast.Return) and isinstance(s.value, ast.Constant) and s.value.value is None:
+            return "None"
+        if isinstance(s, ast.Assign) and len(s.targets) == 1 and isinstance(s.targets[0], ast.Name) \
+                and (s.targets[0].id in ("signal", "len_li") or (self.attr_mode and s.targets[0].id == "value")):
+            name = s.targets[0].id
+            b, t, kind = self.expr(s.value, st)
+            if kind != ("nat" if name == "len_li" else "Z"):
+                raise TranslateError("%s = %s" % (name, kind))
+            st2 = dict(st)
+            st2[name] = name
+            return self.wrap(b, "(let %s := %s in %s)" % (name, t, self.block(rest, st2, k)))
+        if self.attr_mode and isinstance(s, (ast.Assign, ast.AugAssign)):
+            tg = s.targets[0] if isinstance(s, ast.Assign) else s.target
+            if isinstance(tg, ast.Attribute) and isinstance(tg.value, ast.Name) and tg.value.id == "x":
+                if tg.attr not in self.ATTRS or (isinstance(s, ast.Assign) and len(s.targets) != 1):
+                    raise TranslateError("assignment to x.%s" % tg.attr)
+                b, t, kind = self.expr(s.value, st, "Z")
+                if kind != "Z":
+                    raise TranslateError("x.%s is not an int" % tg.attr)
+                if isinstance(s, ast.AugAssign):
+                    if not isinstance(s.op, ast.Add) or st.get("raw_" + tg.attr) is None:
+                        raise TranslateError("augmented assignment %s" % ast.unparse(s))
+                    t = "(%s + %s)" % (st["raw_" + tg.attr], t)
+                a = self.fresh("a")
+                st2 = dict(st)
+                st2[tg.attr] = "(Some %s)" % a
+                st2["raw_" + tg.attr] = a
+                return self.wrap(b, "(let %s := %s in %s)" % (a, t, self.block(rest, st2, k)))
+        if isinstance(s, ast.Assert) and s.msg is None:
+            b, c, kind = self.expr(s.test, st)
+            if kind != "B":
+                raise TranslateError("assert condition")
+            return self.wrap(b, "(if %s then %s else None)" % (c, self.block(rest, st, k)))
+        if isinstance(s, ast.Assign) and len(s.targets) == 1 and ast.unparse(s.targets[0]) == "x.time":
+            b, t, kind = self.expr(s.value, st)
+            if kind != "Z":
+                raise TranslateError("x.time is not an int")
+            st2 = dict(st)
+            st2["value"] = "value"
+            return self.wrap(b, "(let value := %s in %s)" % (t, self.block(rest, st2, k)))
+        if isinstance(s, ast.AugAssign) and isinstance(s.op, ast.Add) and ast.unparse(s.target) == "x.time" \
+                and st.get("value") is not None:
+            b, t, kind = self.expr(s.value, st)
+            if kind != "Z":
+                raise TranslateError("x.time += non-int")
+            st2 = dict(st)
+            st2["value"] = "value"
+            return self.wrap(b, "(let value := (%s + %s) in %s)" % (st["value"], t, self.block(rest, st2, k)))
+        if isinstance(s, ast.Expr) and isinstance(s.value, ast.Call):
+            c = s.value
+            if ast.unparse(c.func) == "setattr" and len(c.args) == 3 and ast.unparse(c.args[0]) == "res" \
+                    and ast.unparse(c.args[1]) == "offattr":
+                b, t, kind = self.expr(c.args[2], st)
+                if kind != "Z":
+                    raise TranslateError("stored offset is not an int")
+                st2 = dict(st)
+                st2["value"] = "value"
+                return self.wrap(b, "(let value := %s in %s)" % (t, self.block(rest, st2, k)))
+            if ast.unparse(c.func) == "used_idxs.append" and len(c.args) == 1:
+                b, t, kind = self.expr(c.args[0], st, "nat")
+                if b or kind != "nat":
+                    raise TranslateError("used_idxs.append argument")
+                st2 = dict(st)
+                st2["used"] = "used"
+                return "(let used := (%s ++ [%s]) in %s)" % (st["used"], t, self.block(rest, st2, k))
+        if isinstance(s, ast.AugAssign) and isinstance(s.op, ast.Add) and ast.unparse(s.target) == "i" \
+                and isinstance(s.value, ast.Constant) and isinstance(s.value.value, int) and s.value.value >= 0:
+            st2 = dict(st)
+            st2["i"] = "i"
+            return "(let i := (%s + %d)%%nat in %s)" % (st["i"], s.value.value, self.block(rest, st2, k))
+        if isinstance(s, ast.If):
+            b, c, kind = self.expr(s.test, st)
+            if kind == "Z":             # truthiness of an int
+                c, kind = "(negb (%s =? 0))" % c, "B"
+            if kind != "B":
+                raise TranslateError("condition")
+            live = [n for n in self.STATE if st.get(n) is not None or self.assigns([s], n)]
+            if self.attr_mode:
+                live += self.ATTRS
+
+            def join(st_):
+                return "(Some (%s))" % ", ".join(st_[n] for n in live) if len(live) > 1 else "(Some %s)" % st_[live[0]]
+            a = self.block(s.body, st, join)
+            o = self.block(s.orelse, st, join)
+            st2 = dict(st)
+            for n in live:
+                st2[n] = ("x_" + n) if n in self.ATTRS else n
+                st2["raw_" + n] = None
+            names = [st2[n] for n in live]
+            pat = "'(%s)" % ", ".join(names) if len(names) > 1 else names[0]
+            return self.wrap(b, "(obind (if %s then %s else %s) (fun %s => %s))" % (c, a, o, pat, self.block(rest, st2, k)))
+        raise TranslateError("token statement %s" % ast.unparse(s).split("\n")[0])
+
+    def assigns(self, stmts, n):
+        for s in stmts:
+            if isinstance(s, ast.Assign) and ast.unparse(s.targets[0]) == n:
+                return True
+            if n == "value" and isinstance(s, ast.Expr) and ast.unparse(s.value).startswith("setattr(res, offattr"):
+                return True
+            if n == "value" and not self.attr_mode and isinstance(s, ast.Assign) and ast.unparse(s.targets[0]) == "x.time":
+                return True
+            if isinstance(s, ast.If) and self.assigns(s.body, n) and (self.assigns(s.orelse, n) or self.returns_none(s.orelse)):
+                return True
+        return False
+
+    def returns_none(self, stmts):
+        return any(isinstance(s, ast.Return) for s in stmts) or \
+            any(isinstance(s, ast.If) and self.returns_none(s.body) and self.returns_none(s.orelse) for s in stmts)
+
+
+def offset_reader(tree):
+    """locate, in _tzparser.parse, the body of `if i < len_l and (l[i] in ('+','-') or l[i][0] in digits):`"""
+    fn = find_method(tree, "_tzparser", "parse")
+    if fn is None:
+        raise TranslateError("_tzparser.parse not found")
+    hits = [n for n in ast.walk(fn) if isinstance(n, ast.If) and n.body and isinstance(n.body[0], ast.If)
+            and ast.unparse(n.body[0].test) == "l[i] in ('+', '-')"
+            and ast.unparse(n.test).replace("\n", "") == "i < len_l and (l[i] in ('+', '-') or l[i][0] in '0123456789')"]
+    if len(hits) != 1:
+        raise TranslateError("offset reader of the abbreviation loop not found (%d candidates)" % len(hits))
+    tr = OptTr()
+    st = {"i": "i", "used": "[]", "signal": None, "value": None, "len_li": None}
+    body = tr.block(hits[0].body, st, lambda st_: "(Some (%s, %s, %s))" % (st_["value"], st_["i"], st_["used"]))
+    out = ("(* _tzparser.parse: the offset after an abbreviation (sign, then hhmm / hh:mm / hh), line %d *)\n"
+           "Definition gen_read_offset (l : list (list Z)) (i : nat) : option (Z * nat * list nat) :=\n  %s.\n\n"
+           % (hits[0].lineno, body))
+    # the time of a rule: the body of `if i < len_l and l[i] == '/':` that assigns x.time
+    hits = [n for n in ast.walk(fn) if isinstance(n, ast.If)
+            and ast.unparse(n.test) == "i < len_l and l[i] == '/'"
+            and any(isinstance(m, ast.Assign) and ast.unparse(m.targets[0]) == "x.time" for m in ast.walk(n))]
+    if len(hits) != 1:
+        raise TranslateError("rule-time reader (x.time) not found (%d candidates)" % len(hits))
+    tr = OptTr()
+    st = {"i": "i", "used": "[]", "signal": None, "value": None, "len_li": None}
+    body = tr.block(hits[0].body, st, lambda st_: "(Some (%s, %s, %s))" % (st_["value"], st_["i"], st_["used"]))
+    out += ("(* _tzparser.parse: the time of a rule after '/' (hhmm / hh:mm[:ss] / hh), line %d *)\n"
+            "Definition gen_read_rule_time (l : list (list Z)) (i : nat) : option (Z * nat * list nat) :=\n  %s."
+            % (hits[0].lineno, body))
+    # one pass of `for x in (res.start, res.end):` in the ",start[/time],end[/time]" branch
+    hits = [n for n in ast.walk(fn) if isinstance(n, ast.For) and ast.unparse(n.target) == "x"
+            and ast.unparse(n.iter) == "(res.start, res.end)" and not n.orelse
+            and n.body and isinstance(n.body[0], ast.If) and ast.unparse(n.body[0].test) == "l[i] == 'J'"]
+    if len(hits) != 1:
+        raise TranslateError("POSIX rule loop not found (%d candidates)" % len(hits))
+    tr = OptTr(attr_mode=True)
+    st = {"i": "i", "used": "[]", "signal": None, "value": None, "len_li": None}
+    for a in OptTr.ATTRS:
+        st[a] = "(@None Z)"
+    body = tr.block(hits[0].body, st, lambda st_: "(Some (mkAttr %s, %s, %s))"
+                    % (" ".join(st_[a] for a in OptTr.ATTRS), st_["i"], st_["used"]))
+    out += ("\n\n(* _tzparser.parse: one pass of `for x in (res.start, res.end)` over a POSIX rule\n"
+            "   (Jn | Mm.w.d | n) [/time] then ',' or the end, line %d.  x starts as a fresh _attr *)\n"
+            "Definition gen_posix_rule (l : list (list Z)) (i : nat) : option (tzattr * nat * list nat) :=\n  %s."
+            % (hits[0].lineno, body))
+    # the abbreviation span: `while j < len_l and not [x for x in l[j] if x in "<chars>"]: j += 1`
+    hits = [n for n in ast.walk(fn) if isinstance(n, ast.While) and not n.orelse
+            and len(n.body) == 1 and ast.unparse(n.body[0]) == "j += 1"]
+    if len(hits) != 1:
+        raise TranslateError("abbreviation span loop not found (%d candidates)" % len(hits))
+    w = hits[0]
+    t = w.test
+    ok = (isinstance(t, ast.BoolOp) and isinstance(t.op, ast.And) and len(t.values) == 2
+          and ast.unparse(t.values[0]) == "j < len_l"
+          and isinstance(t.values[1], ast.UnaryOp) and isinstance(t.values[1].op, ast.Not)
+          and isinstance(t.values[1].operand, ast.ListComp))
+    if ok:
+        lc = t.values[1].operand
+        g = lc.generators
+        ok = (ast.unparse(lc.elt) == "x" and len(g) == 1 and ast.unparse(g[0].target) == "x"
+              and ast.unparse(g[0].iter) == "l[j]" and len(g[0].ifs) == 1 and not g[0].is_async
+              and isinstance(g[0].ifs[0], ast.Compare) and len(g[0].ifs[0].ops) == 1
+              and isinstance(g[0].ifs[0].ops[0], ast.In) and ast.unparse(g[0].ifs[0].left) == "x"
+              and isinstance(g[0].ifs[0].comparators[0], ast.Constant)
+              and isinstance(g[0].ifs[0].comparators[0].value, str))
+    if not ok:
+        raise TranslateError("abbreviation span loop has an unexpected shape: %s" % ast.unparse(t))
+    chars = g[0].ifs[0].comparators[0].value
+    if any(ord(c) > 127 for c in chars):
+        raise TranslateError("non-ASCII character class")
+    out += ("\n\n(* _tzparser.parse: the abbreviation span, line %d:\n"
+            "     while j < len_l and not [x for x in l[j] if x in %r]: j += 1\n"
+            "   a token belongs to the name when none of its characters is in the class; the loop is the\n"
+            "   count of leading such tokens of l[j:] (structural recursion on the suffix) *)\n"
+            "Definition gen_name_tok (t : list Z) : bool :=\n"
+            "  match filter (fun x => existsb (Z.eqb x) [%s]) t with [] => true | _ => false end.\n"
+            "Fixpoint gen_span_name (suffix : list (list Z)) (j : nat) : nat :=\n"
+            "  match suffix with\n"
+            "  | t :: rest => if gen_name_tok t then gen_span_name rest (j + 1)%%nat else j\n"
+            "  | [] => j\n"
+            "  end."
+            % (w.lineno, chars, "; ".join(str(ord(c)) for c in chars)))
+    # one pass of `for x in (res.start, res.end):` in the deprecated 8/9-comma branch
+    hits = [n for n in ast.walk(fn) if isinstance(n, ast.For) and ast.unparse(n.target) == "x"
+            and ast.unparse(n.iter) == "(res.start, res.end)" and not n.orelse
+            and n.body and ast.unparse(n.body[0]) == "x.month = int(l[i])"]
+    if len(hits) != 1:
+        raise TranslateError("deprecated-format rule loop not found (%d candidates)" % len(hits))
+    tr = OptTr(attr_mode=True)
+    st = {"i": "i", "used": "[]", "signal": None, "value": None, "len_li": None}
+    for a in OptTr.ATTRS:
+        st[a] = "(@None Z)"
+    body = tr.block(hits[0].body, st, lambda st_: "(Some (mkAttr %s, %s, %s))"
+                    % (" ".join(st_[a] for a in OptTr.ATTRS), st_["i"], st_["used"]))
+    out += ("\n\n(* _tzparser.parse: one pass of `for x in (res.start, res.end)` of the deprecated format\n"
+            "   month,[-]week,weekday-or-day,seconds, line %d.  x starts as a fresh _attr *)\n"
+            "Definition gen_dep_rule (l : list (list Z)) (i : nat) : option (tzattr * nat * list nat) :=\n  %s."
+            % (hits[0].lineno, body))
+    return out
+
+
 def find_method(tree, cls, name):
     for node in tree.body:
         if isinstance(node, ast.ClassDef) and node.name == cls:
@@ -1070,6 +1418,14 @@ def main():
             failed.append("%s.%s: %s" % (spec[1], spec[2], ex))
             out.append("(* TRANSLATE-ERROR %s.%s: %s *)" % (spec[1], spec[2], str(ex).replace("*)", "* )")))
             out.append("")
+    try:
+        ppath = os.path.join(REPO, "src", "dateutil", "parser/_parser.py")
+        outs[False].append(offset_reader(ast.parse(open(ppath).read())))
+        outs[False].append("")
+    except (TranslateError, SyntaxError, OSError) as ex:
+        failed.append("_tzparser.parse offset reader: %s" % ex)
+        outs[False].append("(* TRANSLATE-ERROR _tzparser.parse offset reader: %s *)" % str(ex).replace("*)", "* )"))
+        outs[False].append("")
     out = outs[True]
     try:
         ok = lock_discipline(trees[os.path.join(REPO, "src", "dateutil", "tz/tz.py")])
